@@ -83,7 +83,24 @@ func genBigID(rt *rapid.T) uint64 {
 
 func genLag(rt *rapid.T) lagCase {
 	c := lagCase{}
-	switch gen.Pick(rt, "mode", 30, 15, 10, 25, 15, 5) {
+	switch gen.Pick(rt, "mode", 30, 15, 10, 25, 15, 5, 12) {
+	case 6: // a whole arithmetic progression within 1..20 (all evens, all multiples of 3, ...) plus one more member: the
+		// numerators and denominators of these committees are the high prime powers (2^18, 3^8, 5^4 ...), i.e. the far
+		// end of every row of a precomputed power table
+		c.Mode = "table-progression"
+		d := gen.Range(rt, "step", 1, 5)
+		a := gen.Range(rt, "first", 1, d)
+		in := map[uint64]bool{}
+		for x := a; x <= 20; x += d {
+			c.IDs = append(c.IDs, uint64(x))
+			in[uint64(x)] = true
+		}
+		if extra := uint64(gen.Range(rt, "extra", 1, 20)); !in[extra] {
+			c.IDs = append(c.IDs, extra)
+		}
+		if gen.Chance(rt, "droplast", 1, 4) && len(c.IDs) > 2 {
+			c.IDs = c.IDs[1:]
+		}
 	case 0: // random subset of 1..20
 		c.Mode = "table"
 		c.IDs = subsetOf(rt, "perm", 1, 20, gen.Range(rt, "k", 1, 20))
